@@ -521,7 +521,9 @@ impl Engine for GlideEngine {
 
 // ---------------------------------------------------------------------------------------------
 
-const FS_SPECIALS: [f32; 8] = [100.0, 1000.0, 4000.0, 8000.0, 22050.0, 32000.0, 44100.0, 48000.0];
+fn fs_specials() -> Vec<f32> {
+    COMMON_RATES.iter().copied().filter(|f| *f <= 48000.0).collect()
+}
 
 fn gen_time(rng: &mut Rng, fs: f32, n_target: f64, chaos: bool) -> f32 {
     if chaos {
@@ -555,7 +557,7 @@ fn gen_input(rng: &mut Rng) -> f32 {
 
 fn random_run(rng: &mut Rng, prof: &Profile, sink: &mut Sink<GlideEngine>) {
     let chaos = prof.chaos;
-    let fs = if rng.chance(0.5) { *rng.pick(&FS_SPECIALS) } else { rng.log_uniform(100.0, 48000.0) as f32 };
+    let fs = if rng.chance(0.5) { *rng.pick(&fs_specials()) } else { rng.log_uniform(100.0, 48000.0) as f32 };
     let long = rng.chance(if prof.tier == Tier::Thorough { 0.08 } else { 0.03 });
     let n_target = if long { rng.log_uniform(2e4, 4.8e5) } else { rng.log_uniform(4.0, 4000.0) };
     let budget: u64 = if long { (n_target * 6.0) as u64 } else { ((n_target * 25.0) as u64).clamp(400, 80_000) };
@@ -678,7 +680,7 @@ fn random_run(rng: &mut Rng, prof: &Profile, sink: &mut Sink<GlideEngine>) {
 /// single-fault sweep: a seeded short glide; one set_time call (a menu of awkward times) or one input jump
 /// injected at every sample index of the glide
 fn sweep_run(rng: &mut Rng, sink: &mut Sink<GlideEngine>) {
-    let fs = if rng.chance(0.5) { *rng.pick(&FS_SPECIALS) } else { rng.log_uniform(100.0, 48000.0) as f32 };
+    let fs = if rng.chance(0.5) { *rng.pick(&fs_specials()) } else { rng.log_uniform(100.0, 48000.0) as f32 };
     let n = rng.range(6, 40) as f64; // glide length in samples
     let t0 = (n / fs as f64) as f32;
     let x0 = gen_input(rng);
